@@ -256,3 +256,97 @@ def _caller_establishes(g, call):
     recv = call.func.value
     facts = _must_removed(g, call)
     return _new_by_construction(g, recv, facts)
+
+
+def required_child(S, tq, cq):
+    """True when no word accepted by the content model of type tq lacks the child cq (the child is required)."""
+    A = S.automaton(tq)
+    seen, todo = set(), [A.run([])]
+    while todo:
+        st = todo.pop()
+        if not st or st in seen:
+            continue
+        seen.add(st)
+        if A.is_final(st):
+            return False
+        for sym in A.live_symbols(st):
+            if sym != cq:
+                todo.append(A.step(st, sym))
+    return True
+
+
+def run_required(ctx, prog, S, M, T):
+    """R3.7: a loop that moves (or removes) every <x> child out of an element whose schema type requires at least one <x> is followed,
+    on every path to the end of the function, by a call on the same element that puts one back (`unclear_content()`, `add_<x>()`,
+    `_add_<x>()`).  The element emptied is the one the loop iterates (`for p in E.p_lst: other.append(p)` / `E.remove(p)`)."""
+    from sa import paths as P_
+    from sa.desugar import desugar
+
+    ctx.rule("R3.7", "an element emptied of a child its type requires gets one back before the function returns")
+    n_sites = 0
+    for g in prog.all_functions():
+        if not g.module.name.startswith("pptx.oxml."):
+            continue
+        loops = [n for n in ast.walk(g.node) if isinstance(n, ast.For) and isinstance(n.target, ast.Name) and isinstance(n.iter, ast.Attribute)
+                 and n.iter.attr.endswith("_lst")]
+        if not loops:
+            continue
+        fc = FCtx(g)
+        for lp in loops:
+            src = lp.iter.value              # the element whose children are iterated
+            v = lp.target.id
+            moves = [c for c in ast.walk(lp) if isinstance(c, ast.Call) and isinstance(c.func, ast.Attribute)
+                     and c.func.attr in ("append", "insert", "addprevious", "addnext", "remove") and any(dotted(a) == v for a in c.args)]
+            if not moves or any(isinstance(x, (ast.If, ast.Break, ast.Continue)) for x in ast.walk(lp)):
+                continue
+            # moving into the same element re-orders, it does not empty; `E.remove(child)` empties E
+            srcs = ast.unparse(src)
+            if all(ast.unparse(c.func.value) == srcs and c.func.attr != "remove" for c in moves):
+                continue
+            prop = lp.iter.attr[:-4]
+            req = []
+            for a in T.expr(src, fc):
+                if a[0] != "inst":
+                    continue
+                decl = next((d for d in M.child_decls(a[1]) if d.prop == prop), None)
+                if decl is None:
+                    continue
+                cq = prog.qn(decl.tags[0])
+                tags = M.tags_for_class(a[1])
+                for t in tags:
+                    for tq in sorted(x for x in S.elem_decls.get(prog.qn(t), ()) if x in S.ctypes):
+                        if cq in S.alphabet(tq) and required_child(S, tq, cq):
+                            req.append((decl.tags[0], S.tname(tq)))
+            if not req:
+                continue
+            n_sites += 1
+            key = "%s:%s.%s_lst" % (g.qualname, srcs, prop)
+            # the clearing primitive itself (its callers restore): a method of the emptied class whose whole job is the loop
+            if srcs == "self" and len([s_ for s_ in g.node.body if not (isinstance(s_, ast.Expr) and isinstance(s_.value, ast.Constant))]) == 1:
+                ctx.ok("R3.7", key, nontrivial=False)
+                continue
+            gd = desugar(g.node)
+            lpd = [n for n in ast.walk(gd) if isinstance(n, ast.For) and ast.unparse(n.iter) == ast.unparse(lp.iter) and ast.unparse(n.target) == v]
+            ok_all, found = True, False
+            for pth in P_.enum_paths(gd.body):
+                idx = next((i for i, e in enumerate(pth.events) if e[0] == "loop" and any(e[1] is x for x in lpd)), None)
+                if idx is None or pth.end == "raise":
+                    continue
+                found = True
+                restored = False
+                for e in pth.events[idx + 1:]:
+                    if e[0] == "stmt":
+                        for c in ast.walk(e[1]):
+                            if isinstance(c, ast.Call) and isinstance(c.func, ast.Attribute) and ast.unparse(c.func.value) == srcs \
+                                    and c.func.attr in ("unclear_content", "add_" + prop, "_add_" + prop, "get_or_add_" + prop):
+                                restored = True
+                if not restored:
+                    ok_all = False
+            if not found:
+                ctx.error(key, "the emptying loop is not on any path of the function")
+            elif ok_all:
+                ctx.ok("R3.7", key, sample={"function": g.fq, "emptied": "%s of <%s>" % (srcs, req[0][0]), "required_by": req[0][1], "restored": "after the loop"})
+            else:
+                ctx.violation("R3.7", key, "every <%s> is moved out of `%s` and nothing puts one back afterwards: %s requires at least one, "
+                              "so the element is left schema-invalid" % (req[0][0], srcs, req[0][1]), file=g.file, line=lp.lineno)
+    ctx.count("emptied_required_sites", n_sites)
